@@ -64,6 +64,26 @@ def oracle(res, case):
         back = spec.unflatten(ls)
         if list(back) != ['t', 'q'] or list(back['t']) != ['b', 'a'] or list(back['q']) != ['z', 'y'] or type(back['q']) is not defaultdict:
             res.fail('round trip under the dict-order mode changes the tree', case)
+        # every traversal that returns a treespec: same treespec (namespace included), and the result
+        # round-trips through the namespace the treespec itself recorded (what tree_transpose,
+        # tree_broadcast_* and unpickling consumers re-flatten with)
+        big = {'t': d, 'q': dd, 'l': [{'y': 3, 'x': 4}, od]}
+        specs = {
+            'flatten': optree.tree_flatten(big, namespace=ns),
+            'with_path': optree.tree_flatten_with_path(big, namespace=ns)[1:],
+            'with_accessor': optree.tree_flatten_with_accessor(big, namespace=ns)[1:],
+        }
+        ls0, sp0 = specs['flatten']
+        st = optree.tree_structure(big, namespace=ns)
+        for name, (ls1, sp1) in list(specs.items()) + [('structure', (ls0, st))]:
+            if ls1 != ls0 or sp1 != sp0 or sp1.namespace != sp0.namespace or repr(sp1) != repr(sp0) \
+                    or sp1.__getstate__() != sp0.__getstate__():
+                res.fail(f'{name} and tree_flatten return different leaves / treespecs under the dict-order mode', case,
+                         f'ns={ns!r} mode={on} {sp0!r} vs {sp1!r}')
+            again = optree.tree_flatten(sp1.unflatten(ls1), namespace=sp1.namespace, none_is_leaf=sp1.none_is_leaf)
+            if again[0] != ls1 or again[1] != sp1:
+                res.fail(f'the result of {name} does not round-trip through the namespace its treespec recorded', case,
+                         f'ns={ns!r} mode={on} recorded={sp1.namespace!r} leaves={ls1} again={again[0]}')
         # python-visible registry
         e = optree.register_pytree_node.get(dict, namespace=ns if n else world.GLOBAL)
         ch = list(e.flatten_func(d)[0])
